@@ -361,6 +361,26 @@ func buildSqfs(scratch string, r *hx.Rng, thorough bool, blocksize int64, opts s
 	}
 	defer w.Close() // removes the workspace
 	files := mkFiles(r, int(blocksize), thorough)
+	if opts.Compression != nil {
+		// a real compressor is in use: make the content of whole blocks alternate between
+		// incompressible (random) and compressible (patterned), so that one file mixes stored
+		// and compressed blocks in every order, and add files that start with each kind
+		for fi := range files {
+			c := files[fi].content
+			for blk := 0; blk*int(blocksize) < len(c); blk++ {
+				if (blk+fi)%2 == 0 {
+					continue // keep random
+				}
+				end := (blk + 1) * int(blocksize)
+				if end > len(c) {
+					end = len(c)
+				}
+				for i := blk * int(blocksize); i < end; i++ {
+					c[i] = byte('a' + (i/64)%7)
+				}
+			}
+		}
+	}
 	if e := populateWorkspace(w.Workspace(), files); e != nil {
 		return nil, e
 	}
